@@ -62,7 +62,19 @@ FIXED = [
     ('C09', 'a127bb1', 'PossibilityDesignated.group_score compared None > 0 with is_rank_optim=False, is_group_optim=True (TypeError)'),
     ('C04', 'c3d3621', 'IdentityIndiscernability substituted across worlds (K proved a=b, MFa |- Fb)'),
     ('C16', '58653a3', 'Tree._build_branches assigned instead of accumulating descendant_node_count'),
+    ('C13', 'c1123bc', "Parser('polish')('a' + '1'*4301) raised ValueError, Parser('polish')('N'*136) raised RecursionError instead of ParseError"),
+    ('C14', '7a39e5b', 'LexicalAbc(ident) / Predicated(*spec) of a sentence with Identity or Existence raised ValueError (always from ident; after cache eviction from spec)'),
+    ('C14', '59f28ed', 'ITEM_CACHE_SIZE=0: import pytableaux.lang raised IndexError (pop from an empty deque)'),
+    ('C14', 'b5f438d', 'setattr on Operator / Quantifier members was accepted'),
+    ('C18', 'cbd6d8a', 'linqset: append 0; l[0]=1 (or l[0:1]=[1]) left the hash table stale'),
+    ('C18', '5e75039', 'qset / Predicates: extend [0,1]; q[0:2]=[0,0] created duplicates'),
+    ('C18', 'c1ba8ab', 'linqset: extend [0,1]; l[0:2]=[0,0] created duplicates'),
+    ('C18', '9115501', 'Predicates: P=[(0,0,2),(1,0,1)]; P[0:2]=[(0,0,1),(0,0,2)] left two arities of one symbol'),
 ]
+# genuine defects kept as findings (no small safe repair)
+F.append(dict(property='C14', key='C14:immutable:lazy-slot-settable:*', status='known',
+    what='constructed items accept setattr on still-empty lazily filled private slots (_hash, _ident, _constants, ...), after which '
+         'hash(x) / x.constants return the planted value; the slots are filled through the same __setattr__ path, so there is no small repair'))
 for prop, commit, what in FIXED:
     F.append(dict(property=prop, key=f'fixed:{prop}:{commit}', status='fixed', commit=commit,
                   what=f'fixed: property={prop} {commit} {what}'))
